@@ -67,8 +67,9 @@ BProbes(q, o) ==
   /\ Chk("B:lb=estimate", \A k \in DOMAIN q : q[k][3] = q[k][2])
   \* ub = estimate + floor(e / buckets * total), e enclosed by 2718/1000 and 2719/1000
   /\ Chk("B:ub-formula", \A k \in DOMAIN q : LET g == q[k][4] - q[k][2] IN
-            /\ g * o.cfg.buckets * 1000 <= 2719 * o.total
-            /\ (g + 1) * o.cfg.buckets * 1000 > 2718 * o.total)
+            \* one unit of slack either way: for W = float the sum is rounded to a 24-bit mantissa before it is truncated
+            /\ (g - 1) * o.cfg.buckets * 1000 <= 2719 * o.total
+            /\ (g + 2) * o.cfg.buckets * 1000 > 2718 * o.total)
 
 TBegin == IsEvent("Begin") /\ obj' = <<>> /\ blob' = <<>> /\ hloc' = <<>>
 TNew == IsEvent("New") /\ LET e == Log[l] IN
@@ -133,6 +134,10 @@ TSer == IsEvent("Ser") /\ LET e == Log[l] IN
           /\ blob' = (e.blob :> [st |-> obj[e.src], img |-> e.img, size |-> e.size]) @@ blob
           /\ UNCHANGED <<obj, hloc>>
 TDeser == IsEvent("Deser") /\ LET e == Log[l]  b == blob[e.blob] IN
+          \* the statement of C14 itself quantifies over serialization points: the answers of a restored sketch still bracket the
+          \* ground truth of everything offered before the round trip, and its total weight is still the exact sum
+          /\ Chk("C14:after-round-trip", /\ e.total = b.st.total
+                                          /\ \A k \in DOMAIN e.q : EstOK(b.st, e.q[k][1], e.q[k][2], e.q[k][3], e.q[k][4]))
           /\ Chk("C09:total-weight", e.total = b.st.total)
           /\ Chk("C09:config", CfgOf(e) = b.st.cfg)
           /\ Chk("C09:cells", e.cells = b.st.cells)
